@@ -5,10 +5,14 @@ package symboldg
 
 import (
 	"fmt"
+	"go/ast"
+	"go/token"
 	"os"
 	"sort"
 	"testing"
 
+	"github.com/gopher-fleece/gleece/v2/common"
+	"github.com/gopher-fleece/gleece/v2/gast"
 	"github.com/gopher-fleece/gleece/v2/graphs"
 )
 
@@ -18,15 +22,18 @@ type vEdge struct {
 }
 
 type vOp struct {
-	op       int // 0 addNode 1 AddEdge 2 RemoveEdge(kind) 3 RemoveEdge(nil) 4 RemoveNode
-	a, b     int
-	kind     SymbolEdgeKind
+	op   int // 0 add node (through createAndAddSymNode, as every public Add* does) 1 AddEdge 2 RemoveEdge(kind) 3 RemoveEdge(nil) 4 RemoveNode
+	a, b int
+	ver  int // file version for op 0
+	kind SymbolEdgeKind
 }
 
 func (o vOp) String() string {
 	names := []string{"addNode", "AddEdge", "RemoveEdge", "RemoveEdgeAllKinds", "RemoveNode"}
 	switch o.op {
-	case 0, 4:
+	case 0:
+		return fmt.Sprintf("addNode(%c@v%d)", 'a'+o.a, o.ver+1)
+	case 4:
 		return fmt.Sprintf("%s(%c)", names[o.op], 'a'+o.a)
 	case 3:
 		return fmt.Sprintf("%s(%c,%c)", names[o.op], 'a'+o.a, 'a'+o.b)
@@ -34,21 +41,33 @@ func (o vOp) String() string {
 	return fmt.Sprintf("%s(%c,%c,%s)", names[o.op], 'a'+o.a, 'a'+o.b, o.kind)
 }
 
-var vKeys = []graphs.SymbolKey{
-	{Name: "a", Position: 1, FileId: "f|v1", FilePath: "f"},
-	{Name: "b", Position: 2, FileId: "f|v1", FilePath: "f"},
-	{Name: "c", Position: 3, FileId: "g|v1", FilePath: "g"},
+var vIdents = []*ast.Ident{
+	{Name: "a", NamePos: token.Pos(1)},
+	{Name: "b", NamePos: token.Pos(2)},
+	{Name: "c", NamePos: token.Pos(3)},
 }
 
+var vVersions = []*gast.FileVersion{{Path: "f", Hash: "v1"}, {Path: "f", Hash: "v2"}}
+
+// vKeys[i] is the key of node i under the version it currently has in the model (version 1 until re-added)
+var vKeys = []graphs.SymbolKey{
+	graphs.NewSymbolKey(vIdents[0], vVersions[0]),
+	graphs.NewSymbolKey(vIdents[1], vVersions[0]),
+	graphs.NewSymbolKey(vIdents[2], vVersions[0]),
+}
+
+var vNumKeys = 3
 var vKinds = []SymbolEdgeKind{EdgeKindType, EdgeKindField}
 
 func vAllOps() []vOp {
 	var ops []vOp
-	for a := range vKeys {
-		ops = append(ops, vOp{op: 0, a: a})
+	for a := 0; a < vNumKeys; a++ {
+		for v := range vVersions {
+			ops = append(ops, vOp{op: 0, a: a, ver: v})
+		}
 	}
-	for a := range vKeys {
-		for b := range vKeys {
+	for a := 0; a < vNumKeys; a++ {
+		for b := 0; b < vNumKeys; b++ {
 			for _, k := range vKinds {
 				ops = append(ops, vOp{op: 1, a: a, b: b, kind: k})
 				ops = append(ops, vOp{op: 2, a: a, b: b, kind: k})
@@ -56,7 +75,7 @@ func vAllOps() []vOp {
 			ops = append(ops, vOp{op: 3, a: a, b: b})
 		}
 	}
-	for a := range vKeys {
+	for a := 0; a < vNumKeys; a++ {
 		ops = append(ops, vOp{op: 4, a: a})
 	}
 	return ops
@@ -64,11 +83,18 @@ func vAllOps() []vOp {
 
 type vModel struct {
 	nodes map[int]bool
+	vers  map[int]int
 	edges map[vEdge]bool
+	// version of the endpoint keys used when an edge was first inserted
+	edgeVer map[vEdge][2]int
+	// stale: some stored edge was inserted with a key of another file version than the node now has.
+	// The adjacency indices are keyed by full (versioned) keys, so such histories are a known finding;
+	// their classes carry the suffix -stalekey and everything else stays fully checked.
+	stale bool
 }
 
 func vKeyIndex(k graphs.SymbolKey) int {
-	for i := range vKeys {
+	for i := 0; i < vNumKeys; i++ {
 		if vKeys[i].BaseId() == k.BaseId() {
 			return i
 		}
@@ -78,7 +104,7 @@ func vKeyIndex(k graphs.SymbolKey) int {
 
 // check compares all views of g with the model; returns a description of the first disagreement.
 func vCheck(g *SymbolGraph, m *vModel) (string, string) {
-	for i, key := range vKeys {
+	for i, key := range vKeys[:vNumKeys] {
 		if g.Exists(key) != m.nodes[i] {
 			return "exists", fmt.Sprintf("Exists(%c)=%v, model %v", 'a'+i, g.Exists(key), m.nodes[i])
 		}
@@ -169,15 +195,82 @@ func vCheck(g *SymbolGraph, m *vModel) (string, string) {
 func vApply(g *SymbolGraph, m *vModel, o vOp) (string, string) {
 	switch o.op {
 	case 0:
-		if !m.nodes[o.a] { // re-adding an existing node must change nothing: exercised through the guard below
-			g.addNode(&SymbolNode{Id: vKeys[o.a]})
-			m.nodes[o.a] = true
-		} else {
-			g.addNode(g.Get(vKeys[o.a]))
+		wasThere, oldVer := m.nodes[o.a], m.vers[o.a]
+		dep := map[int]bool{}
+		if wasThere && oldVer != o.ver {
+			var up func(int)
+			up = func(n int) {
+				for e := range m.edges {
+					if e.to == n && !dep[e.from] {
+						dep[e.from] = true
+						up(e.from)
+					}
+				}
+			}
+			up(o.a)
+		}
+		node, err := g.createAndAddSymNode(vIdents[o.a], common.SymKindStruct, vVersions[o.ver], nil, nil)
+		if err != nil || node == nil {
+			return "addnode-failed", fmt.Sprintf("adding %c failed: %v", 'a'+o.a, err)
+		}
+		newKey := graphs.NewSymbolKey(vIdents[o.a], vVersions[o.ver])
+		if node.Id != newKey {
+			return "readd-kept-stale-node", fmt.Sprintf("re-adding %c under version %d returned the node of another version", 'a'+o.a, o.ver+1)
+		}
+		if wasThere && oldVer != o.ver {
+			// replacement: the stale node, every edge touching it and the dependants left without dependency go
+			for e := range m.edges {
+				if e.from == o.a || e.to == o.a {
+					delete(m.edges, e)
+				}
+			}
+			for i := 0; i < vNumKeys; i++ {
+				if i != o.a && m.nodes[i] && !g.Exists(vKeys[i]) {
+					if !dep[i] {
+						return "readd-evicted-non-dependant", fmt.Sprintf("re-adding %c evicted %c which did not depend on it", 'a'+o.a, 'a'+i)
+					}
+					m.nodes[i] = false
+					for e := range m.edges {
+						if e.from == i || e.to == i {
+							delete(m.edges, e)
+						}
+					}
+				}
+			}
+			for i := 0; i < vNumKeys; i++ {
+				if m.nodes[i] && dep[i] && i != o.a {
+					has := false
+					for e := range m.edges {
+						if e.from == i && (m.nodes[e.to] || e.to == o.a) {
+							has = true
+						}
+					}
+					if !has {
+						return "readd-orphan-kept", fmt.Sprintf("re-adding %c under a newer version kept dependant %c although it has no remaining dependency", 'a'+o.a, 'a'+i)
+					}
+				}
+			}
+		}
+		m.nodes[o.a] = true
+		m.vers[o.a] = o.ver
+		vKeys[o.a] = newKey
+		for e, ev := range m.edgeVer {
+			if !m.edges[e] {
+				continue
+			}
+			if (e.from == o.a && ev[0] != o.ver) || (e.to == o.a && ev[1] != o.ver) {
+				m.stale = true
+			}
 		}
 	case 1:
 		g.AddEdge(vKeys[o.a], vKeys[o.b], o.kind, nil)
-		m.edges[vEdge{o.a, o.b, o.kind}] = true
+		ve := vEdge{o.a, o.b, o.kind}
+		// the version of the key actually passed (vKeys follows the last version a node was added under)
+		cur := func(i int) int { return m.vers[i] }
+		if !m.edges[ve] {
+			m.edgeVer[ve] = [2]int{cur(o.a), cur(o.b)}
+		}
+		m.edges[ve] = true
 	case 2:
 		k := o.kind
 		g.RemoveEdge(vKeys[o.a], vKeys[o.b], &k)
@@ -208,7 +301,7 @@ func vApply(g *SymbolGraph, m *vModel, o vOp) (string, string) {
 		if g.Exists(vKeys[o.a]) {
 			return "removenode-still-there", fmt.Sprintf("RemoveNode(%c) left the node in place", 'a'+o.a)
 		}
-		for i := range vKeys {
+		for i := 0; i < vNumKeys; i++ {
 			if m.nodes[i] && !g.Exists(vKeys[i]) && i != o.a {
 				if !dep[i] {
 					return "removenode-evicted-non-dependant", fmt.Sprintf("RemoveNode(%c) evicted %c which did not depend on it", 'a'+o.a, 'a'+i)
@@ -225,7 +318,7 @@ func vApply(g *SymbolGraph, m *vModel, o vOp) (string, string) {
 			}
 		}
 		// surviving direct dependants must still have a dependency on an existing node
-		for i := range vKeys {
+		for i := 0; i < vNumKeys; i++ {
 			if m.nodes[i] && dep[i] {
 				has := false
 				for e := range m.edges {
@@ -246,52 +339,68 @@ func vApply(g *SymbolGraph, m *vModel, o vOp) (string, string) {
 }
 
 func TestVerifC17Histories(t *testing.T) {
-	maxLen := 3
-	if os.Getenv("VERIF_TIER") == "thorough" {
-		maxLen = 4
+	thorough := os.Getenv("VERIF_TIER") == "thorough"
+	type cfg struct {
+		keys, kinds, maxLen int
 	}
-	ops := vAllOps()
+	cfgs := []cfg{{3, 2, 3}, {2, 1, 4}}
+	if thorough {
+		cfgs = []cfg{{3, 2, 3}, {3, 1, 4}, {2, 1, 5}}
+	}
 	var cases int64
 	fails := map[string]string{}
-	seq := make([]int, 0, maxLen)
-	var rec func()
-	run := func() {
-		cases++
-		gv := NewSymbolGraph()
-		g := &gv
-		m := &vModel{nodes: map[int]bool{}, edges: map[vEdge]bool{}}
-		for step, oi := range seq {
-			class, msg := vApply(g, m, ops[oi])
-			if class == "" {
-				class, msg = vCheck(g, m)
+	allKinds := []SymbolEdgeKind{EdgeKindType, EdgeKindField}
+	for _, c := range cfgs {
+		vNumKeys = c.keys
+		vKinds = allKinds[:c.kinds]
+		ops := vAllOps()
+		seq := make([]int, 0, c.maxLen)
+		var rec func()
+		run := func() {
+			cases++
+			gv := NewSymbolGraph()
+			g := &gv
+			m := &vModel{nodes: map[int]bool{}, vers: map[int]int{}, edges: map[vEdge]bool{}, edgeVer: map[vEdge][2]int{}}
+			for i := range vIdents {
+				vKeys[i] = graphs.NewSymbolKey(vIdents[i], vVersions[0])
 			}
-			if class != "" {
-				if _, dup := fails[class]; !dup {
-					hist := ""
-					for _, x := range seq[:step+1] {
-						hist += ops[x].String() + "; "
-					}
-					fails[class] = fmt.Sprintf("class=%s after %s: %s", class, hist, msg)
+			for step, oi := range seq {
+				class, msg := vApply(g, m, ops[oi])
+				if class == "" {
+					class, msg = vCheck(g, m)
 				}
+				if class != "" {
+					if m.stale {
+						class += "-stalekey"
+					}
+					if _, dup := fails[class]; !dup {
+						hist := ""
+						for _, x := range seq[:step+1] {
+							hist += ops[x].String() + "; "
+						}
+						fails[class] = fmt.Sprintf("class=%s after %s: %s", class, hist, msg)
+					}
+					return
+				}
+			}
+		}
+		rec = func() {
+			if len(seq) > 0 {
+				run()
+			}
+			if len(seq) == c.maxLen {
 				return
 			}
+			for i := range ops {
+				seq = append(seq, i)
+				rec()
+				seq = seq[:len(seq)-1]
+			}
 		}
+		rec()
+		fmt.Printf("VERIF-CASES: %d exhaustive (sequences of length <= %d over %d operations: %d keys x 2 file versions x %d edge kinds)\n", cases, c.maxLen, len(ops), c.keys, c.kinds)
+		cases = 0
 	}
-	rec = func() {
-		if len(seq) > 0 {
-			run()
-		}
-		if len(seq) == maxLen {
-			return
-		}
-		for i := range ops {
-			seq = append(seq, i)
-			rec()
-			seq = seq[:len(seq)-1]
-		}
-	}
-	rec()
-	fmt.Printf("VERIF-CASES: %d exhaustive (sequences of length <= %d over %d operations)\n", cases, maxLen, len(ops))
 	var classes []string
 	for c := range fails {
 		classes = append(classes, c)
